@@ -55,7 +55,7 @@ fn arg_val(args: &[String], name: &str) -> Option<String> {
 
 pub type ProfileTable = fn(&str) -> Vec<(Box<dyn Profile>, u64)>;
 
-pub fn main(entries: Vec<Entry>, table: ProfileTable) -> ! {
+pub fn main(entries: Vec<Entry>, dyn_peers: Vec<(&'static str, rt::registry::PeerFns)>, table: ProfileTable) -> ! {
     // anyhow embeds backtraces in error text when these are set; the event log must not depend on it
     let bt = std::env::var("RUST_BACKTRACE").unwrap_or_default();
     let lbt = std::env::var("RUST_LIB_BACKTRACE").unwrap_or_default();
@@ -72,7 +72,7 @@ pub fn main(entries: Vec<Entry>, table: ProfileTable) -> ! {
     }
     crate::world::install_panic_hook();
     let args: Vec<String> = std::env::args().skip(1).collect();
-    let reg = Reg::new(entries);
+    let reg = Reg::new(entries, dyn_peers);
     let code = match args.first().map(|s| s.as_str()) {
         Some("check") => cmd_check(&args[1..], &reg, table),
         Some("replay") => cmd_replay(&args[1..], &reg, table),
